@@ -26,9 +26,9 @@ ASSUMPTIONS = [
     'numpy view / copy semantics are modelled by buffer identities: basic slicing, newaxis, squeeze, reshape share the buffer; copy(), arithmetic and astype create a new one (assumed numpy contract)',
     'extents are symbolic, ndim is enumerated 1..4; the signal has at least 2 samples (np.squeeze would also drop a length-1 first axis)',
     'frame units reuse the harnesses of C10 / C11 / C13 with every array argument marked read-only; callees of the second-layer sifts are abstracted to a pure function returning a fresh array',
-    'frame conditions of the numerically heavy entry points (sift variants, frequency_transform, amplitude_normalise, phase_align, bin_by_phase) and determinism are decided by the bounded stand-in only (byte comparison of read-only inputs / reused dicts, repeated calls)',
+    'frame units of the numerically heavy entry points (sift, get_next_imf, mask_sift, ensemble variants, envelope / extrema routines, frequency_transform, amplitude_normalise, phase_align, bin_by_phase, cycle detection) reuse the harnesses of their own properties with every array argument read-only: callees are contract stubs there, so each callee needs (and has) its own frame unit; an in-place write that the engine does not model as one (only item / slice assignment and augmented assignment are) would be missed - the bounded stand-in compares the bytes of read-only inputs; determinism is bounded-only',
 ]
-NOT_COVERED = ['frame / determinism of sift, ensemble variants, frequency_transform, amplitude_normalise, phase_align, bin_by_phase: bounded stand-in only',
+NOT_COVERED = ['determinism (repeated call identical) of every routine; frame of the routines not listed under the frame units (holospectrum squash variants, second-layer frequency transform, Cycles methods): bounded stand-in only',
                'layout equivalence of full results (as opposed to the normalised input) for the sift routines: bounded stand-in only']
 
 N = z3.Int('n')
@@ -144,16 +144,31 @@ def units(tier):
         U.append(u)
 
     # ---- frame conditions on other entry points: reuse the harnesses of C10 / C11 / C13 with read-only inputs
-    from contracts import C10, C11, C13
+    from contracts import C10, C11, C13, C01, C03, C04, C05, C07, C09, C14
     picks = [('C10', C10, lambda n: n in ('hilberthuang[M=2,energy]', 'hilberthuang_1d[M=2,energy]')),
              ('C11', C11, lambda n: n in ('holospectrum[M=2,K=1,energy,squash=False]',)),
-             ('C13', C13, lambda n: n in ('get_cycle_vector[return_good=True,mask=given]', 'is_good[ret_all_checks=True]'))]
+             ('C13', C13, lambda n: n in ('get_cycle_vector[return_good=True,mask=given]', 'is_good[ret_all_checks=True]')),
+             # the numerically heavy entry points: same harnesses (callees by contract - each callee has its own frame unit here), every array argument read-only
+             ('C01', C01, lambda n: n in ('sift[no-cap]',)),
+             ('C04', C04, lambda n: n in ('get_next_imf[sd]', 'sd_stop', 'rilling_stop')),
+             ('C03', C03, lambda n: n in ('mask_sift[peel,cap]', 'ensemble_sift[shape]', 'complete_ensemble_sift[cap]')),
+             ('C05', C05, lambda n: n in ('interp_envelope[splrep,upper,pad=2]', 'get_padded_extrema[peaks,pad=2]', 'get_padded_extrema[troughs,pad=2]', '_find_extrema')),
+             ('C07', C07, lambda n: n in ('get_next_imf_mask[nphases=2]',)),
+             ('C09', C09, lambda n: n in ('frequency_transform[hilbert]', 'frequency_transform[nht]', 'frequency_transform[quad]', 'freq_from_phase', 'phase_from_freq')),
+             ('C14', C14, lambda n: n in ('bin_by_phase[vector,unweighted]', 'phase_align[cycle mode]', 'get_cycle_stat_from_samples'))]
+    seen_frame = set()
     for tag, mod, sel in picks:
         for u in mod.units(tier):
-            if sel(u.name):
-                v = Unit('frame:' + u.name, u.path, u.qualname, u.make_inputs, None, loops=u.loops, ns=u.ns, module=u.module, inline=u.inline, raises=u.raises)
+            if sel(u.name) and u.name not in seen_frame:
+                seen_frame.add(u.name)
+                v = Unit('frame:' + u.name, u.path, u.qualname, u.make_inputs, None, loops=u.loops, ns=u.ns, module=u.module, inline=u.inline, raises=u.raises,
+                         wrap_call=u.wrap_call)
                 v.frame = True
                 v.post = _frame_post
+                v.keep_kinds = ('frame', 'post')      # (the functional obligations of these harnesses are discharged under their own property)
+                for att in ('drop_names',):
+                    if hasattr(u, att):
+                        setattr(v, att, getattr(u, att))
                 U.append(v)
 
     # ---- get_cycle_vector on an UNWRAPPED phase (values above 2 pi: the re-wrapping branch) must not write into the caller's array
